@@ -330,14 +330,21 @@ def build_call(desc, model_name, teams):
 
 
 def invoke(model, call, args, kw):
+    """The call as a client would write it.  One call in three names its first argument
+    (`rate(teams=...)`, `predict_win(teams=...)` - the spelling the repository's own tests
+    use); which ones is a function of the call's shape, so that a replay makes the same
+    choice."""
+    if len(args) == 1 and (len(kw) + len(type(args[0]).__name__) + len(call)) % 3 == 0:
+        kw = dict(kw, teams=args[0])
+        args = ()
     if call == "rate":
         return model.rate(*args, **kw)
     if call == "win":
-        return model.predict_win(*args)
+        return model.predict_win(*args, **({"teams": kw["teams"]} if not args else {}))
     if call == "draw":
-        return model.predict_draw(*args)
+        return model.predict_draw(*args, **({"teams": kw["teams"]} if not args else {}))
     if call == "rank":
-        return model.predict_rank(*args)
+        return model.predict_rank(*args, **({"teams": kw["teams"]} if not args else {}))
     raise ValueError(call)
 
 
